@@ -168,7 +168,7 @@ func checkC01(c *Ctx) {
 			return ""
 		})
 	// the wrapper handed to the proxy embeds the caller's writer
-	if pr := p.Fn("internal/loadbalancer", "LoadBalancer", "proxyRequest"); pr != nil {
+	if pr := c.proxyFn(); pr != nil {
 		ok := false
 		instrsOf(pr, func(in ssa.Instruction) {
 			if k, st := storeKey(in); k == "loadbalancer.responseWriter.ResponseWriter" {
